@@ -79,7 +79,7 @@ def run_impl(case):
         pending = []
         for t in range(case["ncycles"]):
             # ---- stimulus
-            resp = [int(rnd.random() < .4), int(rnd.random() < .2), int(rnd.random() < .2), int(rnd.random() < .3), rnd.getrandbits(dw)]
+            resp = [int(rnd.random() < .4), int(rnd.random() < .2), int(rnd.random() < .2), int(rnd.random() < .3), lib.bits(rnd, dw)]
             ctx.set(bus.ack, resp[0]); ctx.set(bus.dat_r, resp[4])
             if "err" in bfeat: ctx.set(bus.err, resp[1])
             if "rty" in bfeat: ctx.set(bus.rty, resp[2])
@@ -100,11 +100,11 @@ def run_impl(case):
                 cyc, stb, lock = cur[i]
                 hold[i] = max(0, hold[i] - 1)
                 we = rnd.getrandbits(1)
-                adr = (i << 4) | rnd.getrandbits(4)
-                datw = rnd.getrandbits(dw)
+                adr = (i << 4) | lib.bits(rnd, 4)
+                datw = lib.bits(rnd, dw)
                 selw = dw // igran[i]
-                sel = rnd.getrandbits(selw)
-                cti, bte = rnd.choice(CTI), rnd.getrandbits(2)
+                sel = lib.bits(rnd, selw)
+                cti, bte = rnd.choice(CTI), lib.bits(rnd, 2)
                 it = intrs[i]
                 for gi in ghosts:
                     ctx.set(gi.cyc, 1); ctx.set(gi.stb, 1); ctx.set(gi.we, 1); ctx.set(gi.adr, 0xEE)
